@@ -1,3 +1,90 @@
-import TenpyModel.C19.Variants
-/-! placeholder, replaced below -/
-theorem C19_placeholder_PropsPairs : True := trivial
+import TenpyModel.C19.Pairs
+import TenpyModel.Gen.C19Pairs
+/-!
+# C19 — predefined neighbour lists: property theorems
+
+"Predefined neighbour lists match the Euclidean distances of the site positions."
+
+The tables (`basis`, unit-cell positions, `pairs`) are **regenerated from the source** by
+`tools/gen_C19.py` on every run (`TenpyModel/Gen/C19Pairs.lean`, exact arithmetic in `ℤ[√3]/den`),
+and the theorems below are re-checked against what the code says now: for every lattice class and
+every key, the list is exactly the `k`-th distance shell modulo `(u1,u2,dx) ~ (u2,u1,-dx)`, with no
+coupling listed twice (`PairsMatch`, candidates: all `dx` with `|dx_a| ≤ 4`).
+
+Partial: displacement vectors outside the box `|dx_a| ≤ 4` are not covered by a Lean theorem (a
+bounding lemma `|v|² ≥ Q(dx)/2 - |p|²` would close this; the harness oracle checks the same box
+against the real `Lattice.distance` / `find_coupling_pairs`).
+-/
+open TenpyModel.C19.Pairs
+open TenpyModel.Gen.C19Pairs
+
+namespace TenpyModel.C19.Pairs
+
+theorem pairsMatchB_sound (t : Table) (B k : Nat) (key : String) (h : pairsMatchB t B k key = true) :
+    PairsMatch t B k key := by
+  unfold pairsMatchB at h
+  split at h
+  · cases h
+  · next D hD =>
+    simp only [Bool.and_eq_true, decide_eq_true_eq, List.all_eq_true, List.contains_eq_mem,
+      beq_iff_eq, Bool.or_eq_true, Bool.not_eq_true', beq_eq_false_iff_ne] at h
+    obtain ⟨⟨h1, h2⟩, h3⟩ := h
+    refine ⟨D, hD, h1, ?_, ?_⟩
+    · intro c hc
+      have := h2 c hc
+      exact ⟨by simpa using this.1, this.2⟩
+    · intro c hc hd
+      rcases h3 c hc with h | h
+      · exact absurd hd h
+      · simpa using h
+
+end TenpyModel.C19.Pairs
+
+/-- **Chain**: `nearest / next_nearest / next_next_nearest_neighbors` = 1st / 2nd / 3rd distance shell -/
+theorem C19_pairs_Chain :
+    PairsMatch chain 4 0 "nearest_neighbors" ∧ PairsMatch chain 4 1 "next_nearest_neighbors" ∧
+    PairsMatch chain 4 2 "next_next_nearest_neighbors" :=
+  ⟨pairsMatchB_sound _ _ _ _ (by decide +kernel), pairsMatchB_sound _ _ _ _ (by decide +kernel),
+   pairsMatchB_sound _ _ _ _ (by decide +kernel)⟩
+
+/-- **Ladder** (`diagonal` is the 2nd shell as well) -/
+theorem C19_pairs_Ladder :
+    PairsMatch ladder 4 0 "nearest_neighbors" ∧ PairsMatch ladder 4 1 "next_nearest_neighbors" ∧
+    PairsMatch ladder 4 2 "next_next_nearest_neighbors" ∧ PairsMatch ladder 4 1 "diagonal" :=
+  ⟨pairsMatchB_sound _ _ _ _ (by decide +kernel), pairsMatchB_sound _ _ _ _ (by decide +kernel),
+   pairsMatchB_sound _ _ _ _ (by decide +kernel), pairsMatchB_sound _ _ _ _ (by decide +kernel)⟩
+
+/-- **Square** -/
+theorem C19_pairs_Square :
+    PairsMatch square 4 0 "nearest_neighbors" ∧ PairsMatch square 4 1 "next_nearest_neighbors" ∧
+    PairsMatch square 4 2 "next_next_nearest_neighbors" :=
+  ⟨pairsMatchB_sound _ _ _ _ (by decide +kernel), pairsMatchB_sound _ _ _ _ (by decide +kernel),
+   pairsMatchB_sound _ _ _ _ (by decide +kernel)⟩
+
+/-- **Triangular** (basis `(√3/2, 1/2), (0, 1)`) -/
+theorem C19_pairs_Triangular :
+    PairsMatch triangular 4 0 "nearest_neighbors" ∧ PairsMatch triangular 4 1 "next_nearest_neighbors" ∧
+    PairsMatch triangular 4 2 "next_next_nearest_neighbors" :=
+  ⟨pairsMatchB_sound _ _ _ _ (by decide +kernel), pairsMatchB_sound _ _ _ _ (by decide +kernel),
+   pairsMatchB_sound _ _ _ _ (by decide +kernel)⟩
+
+/-- **Honeycomb**: five shells -/
+theorem C19_pairs_Honeycomb :
+    PairsMatch honeycomb 4 0 "nearest_neighbors" ∧ PairsMatch honeycomb 4 1 "next_nearest_neighbors" ∧
+    PairsMatch honeycomb 4 2 "next_next_nearest_neighbors" ∧
+    PairsMatch honeycomb 4 3 "fourth_nearest_neighbors" ∧ PairsMatch honeycomb 4 4 "fifth_nearest_neighbors" :=
+  ⟨pairsMatchB_sound _ _ _ _ (by decide +kernel), pairsMatchB_sound _ _ _ _ (by decide +kernel),
+   pairsMatchB_sound _ _ _ _ (by decide +kernel), pairsMatchB_sound _ _ _ _ (by decide +kernel),
+   pairsMatchB_sound _ _ _ _ (by decide +kernel)⟩
+
+/-- **Kagome** -/
+theorem C19_pairs_Kagome :
+    PairsMatch kagome 4 0 "nearest_neighbors" ∧ PairsMatch kagome 4 1 "next_nearest_neighbors" ∧
+    PairsMatch kagome 4 2 "next_next_nearest_neighbors" :=
+  ⟨pairsMatchB_sound _ _ _ _ (by decide +kernel), pairsMatchB_sound _ _ _ _ (by decide +kernel),
+   pairsMatchB_sound _ _ _ _ (by decide +kernel)⟩
+
+/-- Non-vacuity: the Honeycomb nearest-neighbour shell has squared distance `(12·(1/√3))² = 48`
+(in units of `1/12`), three couplings, and the checker rejects a wrong table. -/
+example : kthDistance honeycomb 4 0 = some ⟨48, 0⟩ ∧ (lookup honeycomb "nearest_neighbors").length = 3 ∧
+    pairsMatchB honeycomb 4 1 "nearest_neighbors" = false := by decide +kernel
